@@ -84,6 +84,7 @@ func (ctx *Context) Parse(value string) error {
 	ctx.Error = nil
 	ctx.NumOpCount = 0
 	ctx.detailCache = ""
+	ctx.DetailSpans = nil // 上一次执行的计算过程不属于新的输入
 
 	// 开始解析，编译字节码
 	if ctx.Config.ParseExprLimit != 0 {
